@@ -42,7 +42,7 @@ def run(ck: Check):
     for i in range(80 if quick else 800):
         n = r.randint(2, 24)
         tc = (b"", [bytes([97 + j]) for j in range(n)], [True] * n, b"")
-        limit = r.choice([1, 5, 10])
+        limit = r.choice([0, 0, 1, 5, 10])
         t, clock = 100, []
         for _ in range(200):
             clock.append(t)
@@ -50,7 +50,10 @@ def run(ck: Check):
         cfg = dict(r.choice(grid))
         cfg["limit"] = limit
         v = "Y" + "".join(r.choice("YN") for _ in range(400))
-        ex.one("minimize", cfg, tc, content(tc), v, clock=clock, stream="deadline")
+        st = ("minimize", "minimize-around", "minimize-balanced")[i % 3]
+        if st != "minimize":
+            cfg.pop("first", None)
+        ex.one(st, cfg, tc, content(tc), v, clock=clock, stream="deadline")
     cli_validation(ck)
     ex.diff()
     return ck.finish(level="proof", rule=RULE)
